@@ -417,8 +417,479 @@ fn plain_schedule(r: &mut Rng, n: usize, allow_drop: bool) -> Vec<Action> {
     v
 }
 
+// ---------------------------------------------------------------------------------------
+// the "large" scenario class: sizes beyond the thresholds 22 / 32 / 64 / 128
+// ---------------------------------------------------------------------------------------
+
+/// about one scenario in `LARGE_ONE_IN` is a large one (decided by an Rng of its own, derived from the same
+/// (seed, index), so the small scenarios at all other indices are exactly what they were before)
+pub const LARGE_ONE_IN: usize = 25;
+/// number of children of large join/try_join/race/race_ok/merge/zip/chain scenarios over a Vec
+pub const LARGE_VEC: &[usize] = &[23, 33, 40, 65, 70, 129, 200];
+/// ... over an array (`build.rs::with_array!` instantiates exactly these two beyond 0..=3)
+pub const LARGE_ARRAY: &[usize] = &[33, 65];
+/// number of source items of large concurrent-stream scenarios
+pub const LARGE_CO: &[usize] = &[23, 65, 129, 130, 260, 300];
+/// number of members inserted by a large group scenario: LARGE_GROUP.0 ..= LARGE_GROUP.1
+pub const LARGE_GROUP: (usize, usize) = (14, 45);
+const LARGE_SALT: u64 = 0x6c61_7267_655f_7363;
+
+/// does (family, container) have a large scenario class?
+pub fn has_large(family: &str, container: &str) -> bool {
+    match family {
+        "join" | "try_join" | "race" | "race_ok" | "merge" | "zip" | "chain" => matches!(container, "vec" | "array"),
+        "future_group" | "stream_group" | "co_stream" => true,
+        _ => false,
+    }
+}
+
+/// an index in 0..n that is often high: uniform, the last one, in the last quarter, or at / just beyond one of
+/// the thresholds 22, 32, 64, 128
+fn hi_index(r: &mut Rng, n: usize) -> usize {
+    if n <= 1 {
+        return 0;
+    }
+    match r.below(5) {
+        0 => r.below(n),
+        1 => n - 1,
+        2 => n - 1 - r.below((n / 4).max(1)),
+        _ => {
+            let ts: Vec<usize> = [22usize, 32, 64, 128].iter().copied().filter(|t| *t < n).collect();
+            if ts.is_empty() {
+                r.below(n)
+            } else {
+                let t = r.pick(&ts);
+                if r.chance(60) {
+                    t + r.below((n - t).min(3))
+                } else {
+                    t + r.below(n - t)
+                }
+            }
+        }
+    }
+}
+
+/// how the pending steps of one large scenario look
+#[derive(Clone, Copy)]
+struct Pend {
+    /// number of children (for `WakeSib`)
+    n: usize,
+    /// `NoWake` steps (a child that stays pending unless the schedule fires its waker) are used in this scenario;
+    /// decided once per scenario: with hundreds of children a per-step chance would stall nearly every scenario
+    nowake: bool,
+}
+
+/// one pending step of a large scenario: one that wakes now or later (or, in some scenarios, not at all)
+fn large_pending(r: &mut Rng, p: Pend) -> Step {
+    match r.below(100) {
+        0..=47 => Step::WakeLater,
+        48..=89 => Step::WakeNow,
+        90..=95 if p.nowake => Step::NoWake,
+        90..=95 => Step::WakeLater,
+        _ => Step::WakeSib(hi_index(r, p.n)),
+    }
+}
+
+/// future: resolves after 0 (mostly) or 1 pending steps; `pend` = chance of the pending step in percent
+fn large_fut(r: &mut Rng, p: Pend, pend: usize, last: Step) -> Vec<Step> {
+    if r.chance(pend) {
+        vec![large_pending(r, p), last]
+    } else {
+        vec![last]
+    }
+}
+
+/// stream: `items` items then End, each with chance `pend` preceded by one pending step
+fn large_stream(r: &mut Rng, p: Pend, items: usize, pend: usize) -> Vec<Step> {
+    let mut s = Vec::new();
+    for _ in 0..items {
+        if r.chance(pend) {
+            s.push(large_pending(r, p));
+        }
+        s.push(Step::Item);
+    }
+    if r.chance(pend) {
+        s.push(large_pending(r, p));
+    }
+    s.push(Step::End);
+    s
+}
+
+/// a few driver actions for a combinator with `n` children (wake-ups aim at high indices)
+fn large_schedule(r: &mut Rng, n: usize, allow_drop: bool, early_drop: bool) -> Vec<Action> {
+    let len = r.below(7);
+    let mut v: Vec<Action> = Vec::new();
+    let mut dropped = false;
+    for _ in 0..len {
+        let x = r.below(100);
+        let a = if dropped {
+            if x < 60 {
+                Action::Fire(hi_index(r, n))
+            } else {
+                Action::Stale(hi_index(r, n))
+            }
+        } else if x < 36 {
+            Action::Poll
+        } else if x < 58 {
+            Action::Spurious
+        } else if x < 84 {
+            Action::Fire(hi_index(r, n))
+        } else if x < 94 {
+            Action::Stale(hi_index(r, n))
+        } else if allow_drop && (early_drop || v.iter().any(|a| matches!(a, Action::Poll | Action::Spurious))) {
+            // (dropping a large combinator that was never polled is left to the C02 runs)
+            dropped = true;
+            Action::Drop
+        } else {
+            Action::Poll
+        };
+        v.push(a);
+    }
+    v
+}
+
+/// `k` distinct often-high indices in 0..n
+fn hi_set(r: &mut Rng, n: usize, k: usize) -> Vec<usize> {
+    let mut v: Vec<usize> = Vec::new();
+    let mut tries = 0;
+    while v.len() < k.min(n) && tries < 20 * k + 20 {
+        tries += 1;
+        let i = hi_index(r, n);
+        if !v.contains(&i) {
+            v.push(i);
+        }
+    }
+    v
+}
+
+fn generate_large(family: &str, container: &str, r: &mut Rng, o: &GenOpts) -> Scenario {
+    let mut sc = Scenario {
+        family: family.to_string(),
+        container: container.to_string(),
+        children: vec![],
+        schedule: vec![],
+        finish: true,
+        fire_hi: r.chance(50),
+        keyed: false,
+        cap: 0,
+        stream: false,
+        co: None,
+    };
+    let sizes = if container == "array" { LARGE_ARRAY } else { LARGE_VEC };
+    let nowake = r.chance(15);
+    let early_drop = o.prop == "C02";
+    match family {
+        "join" | "try_join" => {
+            let n = r.pick(sizes);
+            let pd = Pend { n, nowake };
+            let fin = if family == "join" { Step::Ready } else { Step::Ok };
+            match r.below(10) {
+                // every child resolves at its first poll
+                0..=3 => sc.children = vec![vec![fin]; n],
+                // some children need one more poll
+                4..=7 => {
+                    for _ in 0..n {
+                        sc.children.push(large_fut(r, pd, 15, fin));
+                    }
+                }
+                // only a few children, at high indices, need one more poll
+                _ => {
+                    sc.children = vec![vec![fin]; n];
+                    let k = 1 + r.below(3);
+                    for i in hi_set(r, n, k) {
+                        sc.children[i] = vec![large_pending(r, pd), fin];
+                    }
+                }
+            }
+            if family == "try_join" && r.chance(40) {
+                let k = 1 + r.below(3);
+                for i in hi_set(r, n, k) {
+                    let l = sc.children[i].len();
+                    sc.children[i][l - 1] = Step::Err;
+                }
+            }
+            if o.panics && r.chance(25) {
+                let i = hi_index(r, n);
+                let l = sc.children[i].len();
+                sc.children[i][l - 1] = Step::Panic;
+            }
+            sc.schedule = large_schedule(r, n, true, early_drop);
+        }
+        "race" | "race_ok" => {
+            let n = r.pick(sizes);
+            let pd = Pend { n, nowake };
+            let ok = family == "race_ok";
+            let win = if ok { Step::Ok } else { Step::Ready };
+            let mode = r.below(10);
+            if mode <= 6 {
+                // exactly one child completes (successfully); all others stay pending forever (race_ok: or fail)
+                let w = hi_index(r, n);
+                let others_fail = ok && r.chance(60);
+                for i in 0..n {
+                    let s = if i == w {
+                        match r.below(10) {
+                            0..=4 => vec![win],
+                            5..=6 => vec![Step::WakeNow, win],
+                            _ => vec![Step::WakeLater, win],
+                        }
+                    } else if others_fail && r.chance(55) {
+                        large_fut(r, pd, 12, Step::Err)
+                    } else {
+                        match r.below(20) {
+                            0..=16 => vec![],
+                            17..=18 => vec![Step::WakeLater],
+                            _ => vec![Step::WakeNow],
+                        }
+                    };
+                    sc.children.push(s);
+                }
+            } else if ok && mode <= 8 {
+                // every child fails: the aggregate error holds n errors
+                for _ in 0..n {
+                    sc.children.push(large_fut(r, pd, 12, Step::Err));
+                }
+            } else {
+                for _ in 0..n {
+                    let s = match r.below(10) {
+                        0..=5 => vec![],
+                        6..=7 if ok => large_fut(r, pd, 20, Step::Err),
+                        _ => large_fut(r, pd, 40, win),
+                    };
+                    sc.children.push(s);
+                }
+            }
+            if o.panics && r.chance(20) {
+                let i = hi_index(r, n);
+                sc.children[i] = vec![Step::Panic];
+            }
+            sc.schedule = large_schedule(r, n, true, early_drop);
+        }
+        "merge" | "zip" | "chain" => {
+            let n = r.pick(sizes);
+            let pd = Pend { n, nowake };
+            let mode = r.below(10);
+            if family == "merge" && o.prop == "C17" {
+                // one input that has several items, each available whenever it is polled; the others mostly
+                // have one item each (also always available)
+                let p = hi_index(r, n);
+                for i in 0..n {
+                    if i == p {
+                        let m = 3 + r.below(4);
+                        let mut s = vec![Step::Item; m];
+                        s.push(Step::End);
+                        sc.children.push(s);
+                    } else {
+                        let items = r.pick(&[0, 1, 1, 1, 2]);
+                        sc.children.push(large_stream(r, pd, items, 8));
+                    }
+                }
+            } else if family == "zip" {
+                let rows = 1 + r.below(2);
+                for _ in 0..n {
+                    sc.children.push(large_stream(r, pd, rows, if mode >= 6 { 6 } else { 0 }));
+                }
+                match mode {
+                    // a few inputs at high indices are late
+                    2..=3 => {
+                        let k = 1 + r.below(2);
+                        for i in hi_set(r, n, k) {
+                            sc.children[i].insert(0, large_pending(r, pd));
+                        }
+                    }
+                    // one input ends one row early
+                    4 => {
+                        let i = hi_index(r, n);
+                        sc.children[i] = large_stream(r, pd, rows - 1, 0);
+                    }
+                    // one input never produces anything
+                    5 => {
+                        let i = hi_index(r, n);
+                        sc.children[i] = vec![];
+                    }
+                    _ => {}
+                }
+            } else if mode <= 2 {
+                // every input: one or two items, then the end
+                for _ in 0..n {
+                    let items = r.pick(&[1, 1, 1, 2]);
+                    sc.children.push(large_stream(r, pd, items, 0));
+                }
+            } else if mode <= 5 {
+                // items only from a few inputs at high indices; all the others are empty (or silent)
+                let other: Vec<Step> = if r.chance(70) { vec![Step::End] } else { vec![] };
+                sc.children = vec![other; n];
+                let k = 1 + r.below(4);
+                for i in hi_set(r, n, k) {
+                    let items = 1 + r.below(3);
+                    sc.children[i] = large_stream(r, pd, items, 25);
+                }
+            } else {
+                for _ in 0..n {
+                    let items = r.pick(&[0, 0, 1, 1, 1, 2]);
+                    sc.children.push(large_stream(r, pd, items, 12));
+                }
+            }
+            if o.panics && r.chance(20) {
+                let i = hi_index(r, n);
+                let l = sc.children[i].len();
+                if l > 0 {
+                    sc.children[i][l - 1] = Step::Panic;
+                } else {
+                    sc.children[i] = vec![Step::Panic];
+                }
+            }
+            sc.schedule = large_schedule(r, n, o.prop != "C17", early_drop);
+        }
+        "future_group" | "stream_group" => {
+            let is_f = family == "future_group";
+            sc.keyed = r.chance(50);
+            sc.cap = r.pick(&[0, 0, 0, 1, 3, 4, 13, 22, 23, 40]);
+            let total = LARGE_GROUP.0 + r.below(LARGE_GROUP.1 - LARGE_GROUP.0 + 1);
+            let mut inserted = 0usize;
+            let mut keys = 0usize;
+            if r.chance(30) {
+                // reserve, then insert up to (and beyond) the reserved capacity
+                sc.schedule.push(Action::Reserve(r.pick(&[total, total, total - 1, 14, 22, 23, 45])));
+            }
+            // the first batch often brings the group beyond 13 members before it is polled at all
+            let mut batch = if r.chance(50) { LARGE_GROUP.0 + r.below(total - LARGE_GROUP.0 + 1) } else { 1 + r.below(5) };
+            while inserted < total {
+                let b = batch.min(total - inserted).max(1);
+                if is_f && r.chance(10) {
+                    sc.schedule.push(Action::Extend(b));
+                } else {
+                    for _ in 0..b {
+                        sc.schedule.push(Action::Insert);
+                    }
+                    keys += b;
+                }
+                inserted += b;
+                for _ in 0..r.below(4) {
+                    let x = r.below(100);
+                    sc.schedule.push(if x < 45 {
+                        Action::Poll
+                    } else if x < 60 {
+                        Action::Spurious
+                    } else if x < 78 {
+                        Action::Fire(r.below(inserted))
+                    } else if x < 83 {
+                        Action::Stale(r.below(inserted))
+                    } else if x < 95 && keys > 0 {
+                        Action::Remove(r.below(keys))
+                    } else {
+                        Action::Reserve(r.below(6))
+                    });
+                }
+                batch = r.pick(&[1, 2, 3, 4, 9, 13, 14, 27]);
+            }
+            for _ in 0..r.below(4) {
+                sc.schedule.push(if r.chance(50) { Action::Poll } else { Action::Fire(hi_index(r, inserted)) });
+            }
+            let pd = Pend { n: inserted, nowake };
+            for _ in 0..inserted {
+                if is_f {
+                    let mut s = large_fut(r, pd, 40, Step::Ready);
+                    if o.panics && r.chance(2) {
+                        let l = s.len();
+                        s[l - 1] = Step::Panic;
+                    }
+                    sc.children.push(s);
+                } else {
+                    let items = 1 + r.below(2);
+                    sc.children.push(large_stream(r, pd, items, 12));
+                }
+            }
+        }
+        "co_stream" => {
+            let source = if r.chance(35) { "co" } else { "vec" };
+            let len = r.pick(LARGE_CO);
+            let mut stack = Vec::new();
+            let depth = r.pick(&[0, 1, 1, 2, 2, 3]);
+            let no_take = matches!(o.prop.as_str(), "C13" | "C14");
+            for _ in 0..depth {
+                stack.push(match if no_take { r.pick(&[0, 1, 3, 3]) } else { r.below(4) } {
+                    0 => Adapter::Map,
+                    1 => Adapter::Enumerate,
+                    // mostly around the source length and the thresholds, sometimes small (never `take(0)`, the known D2)
+                    2 => Adapter::Take(r.pick(&[len - 1, len, len + 1, 1000, 129, 128, 65, 5, 1])),
+                    _ => Adapter::Limit(r.pick(&[0, 1, 1, 2, 3])),
+                });
+            }
+            let terminal = match o.prop.as_str() {
+                "C13" => "for_each",
+                "C14" => {
+                    if r.chance(65) {
+                        "try_for_each"
+                    } else {
+                        "collect_result"
+                    }
+                }
+                _ => r.pick(&["collect", "collect", "for_each", "try_for_each", "collect_result"]),
+            }
+            .to_string();
+            if source == "co" {
+                // `len` items; a handful of them arrive after one pending step
+                let k = r.below(4);
+                let late = hi_set(r, len, k);
+                let mut s = Vec::new();
+                for i in 0..len {
+                    if late.contains(&i) {
+                        s.push(large_pending(r, Pend { n: 1, nowake }));
+                    }
+                    s.push(Step::Item);
+                }
+                s.push(Step::End);
+                sc.children.push(s);
+            }
+            let mut work = BTreeMap::new();
+            let mut stages: Vec<(String, bool)> = stack
+                .iter()
+                .enumerate()
+                .filter(|(_, a)| **a == Adapter::Map)
+                .map(|(i, _)| (format!("m{i}"), false))
+                .collect();
+            match terminal.as_str() {
+                "for_each" => stages.push(("t".into(), false)),
+                "try_for_each" => stages.push(("t".into(), true)),
+                "collect_result" => stages.push(("r".into(), true)),
+                _ => {}
+            }
+            // all per-item futures are immediately ready, except a handful with one pending step (or an Err)
+            for (st, fallible) in stages {
+                let k = r.below(4);
+                for item in hi_set(r, len, k) {
+                    let last = if !fallible {
+                        Step::Ready
+                    } else if r.chance(35) {
+                        Step::Err
+                    } else {
+                        Step::Ok
+                    };
+                    let s = if r.chance(75) {
+                        vec![if r.chance(50) { Step::WakeNow } else { Step::WakeLater }, last]
+                    } else {
+                        vec![last]
+                    };
+                    work.insert(format!("{st}:{item}"), s);
+                }
+            }
+            sc.co = Some(CoSpec { source: source.to_string(), len, stack, terminal, work });
+            // children are created dynamically (source first, then closure futures in creation order)
+            sc.schedule = large_schedule(r, 1 + len, true, early_drop);
+        }
+        _ => {}
+    }
+    sc
+}
+
 /// Produce the `index`-th scenario for (family, container). Deterministic in (seed, index).
 pub fn generate(family: &str, container: &str, seed: u64, index: u64, o: &GenOpts) -> Scenario {
+    if has_large(family, container) {
+        let mut lr = Rng::new(seed ^ LARGE_SALT, index);
+        if lr.below(LARGE_ONE_IN) == 0 {
+            return generate_large(family, container, &mut lr, o);
+        }
+    }
     let mut r = Rng::new(seed, index);
     let mut sc = Scenario {
         family: family.to_string(),
